@@ -31,7 +31,7 @@ CHECKS["C03"] = {
     "level_text": "every ordered pair of entry lists up to the stated length over a 3-section x 2-key universe (all group interleavings, "
                   "setter-built and parsed, all empty-object constructors) is merged by the real econf_mergeFiles and compared with a "
                   "reference written from the statement; no sampling",
-    "level_note": "bounded: list length <= 3 (quick) / 4 (thorough), 2-symbol families up to length 5 / 8; trusted: the reference merge in harness/c03.c, gcc ASan/UBSan",
+    "level_note": "bounded: list length <= 3 (quick) / 4 (thorough) with tagged values, <= 2 / 3 with up to two entries without value, 2-symbol families up to length 4 / 7 with at most one entry without value; trusted: the reference merge in harness/c03.c, gcc ASan/UBSan",
     "rule": "all ordered pairs (base, override) of entry lists over {group-less,A,B}x{x,y} up to length L, every group "
             "interleaving, each list realised by setters (3 constructors) and by parsing; plus all pairs of lists up to a longer "
             "length over three 2-symbol sub-alphabets; non-trivial = the two sides share a section, or a side is empty, or a side "
@@ -39,14 +39,16 @@ CHECKS["C03"] = {
             "sequences); oracle = reference merge written from the statement + inputs unchanged + sanitizers",
     "deadline": {"quick": 100, "thorough": 900},
     "parts": [
-        {"name": "pairs", "harness": "c03", "variant": "asan", "quick": ["--p0", 3], "thorough": ["--p0", 4],
-         "deadline_share": 0.55, "floor": {"quick": 10000, "thorough": 100000}},
-        {"name": "long-AxBx", "harness": "c03", "variant": "asan", "quick": ["--p3", 1, "--p2", 5], "thorough": ["--p3", 1, "--p2", 8],
-         "deadline_share": 0.15, "floor": {"quick": 1000, "thorough": 10000}},
-        {"name": "long-NxAx", "harness": "c03", "variant": "asan", "quick": ["--p3", 2, "--p2", 5], "thorough": ["--p3", 2, "--p2", 8],
-         "deadline_share": 0.15, "floor": {"quick": 1000, "thorough": 10000}},
-        {"name": "long-AxAy", "harness": "c03", "variant": "asan", "quick": ["--p3", 3, "--p2", 5], "thorough": ["--p3", 3, "--p2", 8],
-         "deadline_share": 0.15, "floor": {"quick": 1000, "thorough": 10000}},
+        {"name": "pairs", "harness": "c03", "variant": "asan", "quick": ["--p0", 3, "--p1", 0], "thorough": ["--p0", 4, "--p1", 0],
+         "deadline_share": 0.4, "floor": {"quick": 10000, "thorough": 100000}},
+        {"name": "pairs-emptyvalues", "harness": "c03", "variant": "asan", "quick": ["--p0", 2, "--p1", 2], "thorough": ["--p0", 3, "--p1", 2],
+         "deadline_share": 0.3, "floor": {"quick": 10000, "thorough": 100000}},
+        {"name": "long-AxBx", "harness": "c03", "variant": "asan", "quick": ["--p3", 1, "--p2", 4, "--p1", 1], "thorough": ["--p3", 1, "--p2", 7, "--p1", 1],
+         "deadline_share": 0.1, "floor": {"quick": 1000, "thorough": 10000}},
+        {"name": "long-NxAx", "harness": "c03", "variant": "asan", "quick": ["--p3", 2, "--p2", 4, "--p1", 1], "thorough": ["--p3", 2, "--p2", 7, "--p1", 1],
+         "deadline_share": 0.1, "floor": {"quick": 1000, "thorough": 10000}},
+        {"name": "long-AxAy", "harness": "c03", "variant": "asan", "quick": ["--p3", 3, "--p2", 4, "--p1", 1], "thorough": ["--p3", 3, "--p2", 7, "--p1", 1],
+         "deadline_share": 0.1, "floor": {"quick": 1000, "thorough": 10000}},
     ],
     "assumptions": ["values are short distinguishable tags; value content is irrelevant to econf_mergeFiles",
                     "lists longer than the bound are not covered"],
@@ -118,10 +120,10 @@ CHECKS["C01"] = {
     "engine": "E1",
     "technique": "bounded exhaustive enumeration of all configuration trees over a name universe, per parameter shape, real layered read on a real tmpfs tree against a reference lookup",
     "level_text": "every tree (3-4 layers x main file {absent, regular, empty, ->/dev/null} x every subset of the drop-in name universe per layer) is "
-                  "materialised on tmpfs and read by the real econf_readConfigWithCallback for 14 parameter shapes; return code, the sequence of paths "
+                  "materialised on tmpfs and read by the real econf_readConfigWithCallback for 15 parameter shapes; return code, the sequence of paths "
                   "given to the callback and the resulting (section,key)->value map are compared with a reference written from the statement; file contents "
                   "encode which files were applied and the relative order of every pair",
-    "level_note": "bounded: name universe of 5 (quick) / 6 (thorough) names for the default shape, 2-3 / 4 for the other shapes; C locale only (alphasort = byte order); "
+    "level_note": "bounded: name universe of 5 (quick) / 6 (thorough) names for the default shape plus a second universe of 3 / 5 names (dot file, bare suffix, x.conf.bak), 2-3 / 4 names for the other shapes; C locale only (alphasort = byte order); "
                   "trusted: reference in harness/tree.h, tmpfs semantics, ASan/UBSan",
     "rule": "case = (parameter shape, tree); non-trivial = at least two files applied or at least one file masked; distinct by construction; universe contains "
             "names whose byte order differs from numeric (10-a < 9-b) and dictionary (B < a) order, a name without suffix, (thorough) a dot file, the bare suffix and x.conf.bak",
